@@ -66,6 +66,16 @@ func (r *parkReader) Read(p []byte) (int, error) {
 
 func c15Method(i int) string { return []string{"GET", "POST", "PUT", "DELETE"}[i%4] }
 
+// sortedMore orders the ";key=value" items of the additional default headers as c15Describe does (by key).
+func sortedMore(m string) string {
+	if m == "" {
+		return ""
+	}
+	items := strings.Split(m[1:], ";")
+	sort.Strings(items)
+	return ";" + strings.Join(items, ";")
+}
+
 func c15Describe(tg *vegeta.Target) string {
 	keys := make([]string, 0, len(tg.Header))
 	for k := range tg.Header {
@@ -148,7 +158,7 @@ func runTargeters(tt *testing.T, tape *simrt.Tape, keep bool) (out simrt.Outcome
 		// default headers whose value slice has spare capacity (built by one append per -header flag), under a key
 		// that every target also sets
 		var defHdr http.Header
-		wantTwo := ""
+		wantTwo, wantMore := "", ""
 		if kind != "static" && tape.Prob(1, 2) {
 			var vs []string
 			for i := 0; i < []int{1, 3, 5}[tape.Choose(3)]; i++ {
@@ -156,6 +166,11 @@ func runTargeters(tt *testing.T, tape *simrt.Tape, keep bool) (out simrt.Outcome
 			}
 			defHdr = http.Header{"X-Two": vs}
 			wantTwo = strings.Join(vs, ",") + ","
+			// further default keys that no target sets itself (sorted after X-Two in the description)
+			for _, k := range []string{"X-Zed", "X-Yak", "X-Vat"}[:tape.Choose(4)] {
+				defHdr[k] = []string{"def-" + k}
+				wantMore += ";" + k + "=def-" + k
+			}
 		}
 		// the source
 		var src bytes.Buffer
@@ -212,7 +227,7 @@ func runTargeters(tt *testing.T, tape *simrt.Tape, keep bool) (out simrt.Outcome
 			if err != nil || idx < 0 || idx >= ntargets {
 				return -2, "a target that is not in the input: " + blob
 			}
-			wantHdr := fmt.Sprintf("X-Idx=%d;X-Two=%sa%d", idx, wantTwo, idx)
+			wantHdr := fmt.Sprintf("X-Idx=%d;X-Two=%sa%d", idx, wantTwo, idx) + sortedMore(wantMore)
 			wantBody := ""
 			if kind == "json" || bodies {
 				wantBody = "body-" + strconv.Itoa(idx)
